@@ -29,6 +29,8 @@ type Vibranium struct {
 	counter sync.WaitGroup
 	stop    chan struct{}
 	TaskNum int
+	// tasks come and go on the goroutines of the rpc calls
+	taskNumMux sync.Mutex
 }
 
 // Info show core info
